@@ -11,6 +11,21 @@ def A(G):
     return np.array(G, dtype=int).reshape(-1, 4)
 
 
+_BUF = {}
+
+
+def A_reuse(G):
+    """The same array object for every graph of a given shape, rewritten in place - what a caller
+    does who keeps one accessor and trims or refills it.  A correct library cannot tell the
+    difference; anything keyed on the identity of the array can."""
+    n = len(G)
+    b = _BUF.get(n)
+    if b is None:
+        b = _BUF[n] = np.full((n, 4), -1, dtype=int)
+    b[...] = G
+    return b
+
+
 def rows(arr):
     return [[int(x) for x in r] for r in arr]
 
